@@ -523,3 +523,120 @@ func (c *concCtx) kLoopErrorExits(rule string) {
 		}
 	}
 }
+
+// terminateClosesStream: conn.terminate closes the stream on every path, except on paths that leave through an
+// idempotence test proving an earlier terminate already did: the result edge of an atomic Swap/CompareAndSwap on a
+// flag of the connection (the test and the marking are one operation), or `c.ctx.Err() != nil` / <-c.ctx.Done() on the
+// connection's own context provided the connection's cancel function is invoked nowhere but in terminate itself
+// (otherwise "already cancelled" does not imply "already closed": the stream, and the loop blocked in Read, leak).
+func terminateClosesStream(r *Run, rule, rel string) {
+	p := r.P
+	fn := p.Func(rel, "conn", "terminate")
+	key := rel + ".conn.terminate/closes-stream-on-every-path"
+	if fn == nil {
+		r.Unk(rule, key, token.NoPos, "anchor missing")
+		return
+	}
+	var closes []ssa.Instruction
+	allInstrs(fn, func(in ssa.Instruction) {
+		if c := callOf(in); c != nil && callID(c).is(ttlvPath, "Stream", "Close") {
+			if _, isDefer := in.(*ssa.Defer); isDefer {
+				closes = append(closes, in)
+			} else if _, isCall := in.(*ssa.Call); isCall {
+				closes = append(closes, in)
+			}
+		}
+	})
+	if len(closes) == 0 {
+		r.Bad(rule, key, fn.Pos(), "terminate does not close the stream: a loop blocked in Read/Write is never released")
+		return
+	}
+	// who calls the connection's cancel function
+	cancelOutside := token.NoPos
+	for _, f := range pkgFuncs(p, rel) {
+		if f == fn {
+			continue
+		}
+		allInstrs(f, func(in ssa.Instruction) {
+			c := callOf(in)
+			if c == nil || c.IsInvoke() || c.StaticCallee() != nil {
+				return
+			}
+			ld, ok := c.Value.(*ssa.UnOp)
+			if !ok {
+				return
+			}
+			if fa, ok := ld.X.(*ssa.FieldAddr); ok && typeName(fa.X.Type()) == "conn" {
+				fld := derefStruct(fa.X.Type()).Field(fa.Field)
+				tn := typeName(fld.Type())
+				_, isFunc := fld.Type().Underlying().(*types.Signature)
+				if tn == "CancelCauseFunc" || tn == "CancelFunc" || (isFunc && strings.Contains(strings.ToLower(fname(fld)), "cancel")) {
+					cancelOutside = in.Pos()
+				}
+			}
+		})
+	}
+	paths, okP := enumeratePaths(fn, 512)
+	if !okP {
+		r.Unk(rule, key, fn.Pos(), "too many paths")
+		return
+	}
+	for _, path := range paths {
+		closed, excused, why := false, false, ""
+		for i, b := range path {
+			for _, in := range b.Instrs {
+				for _, c := range closes {
+					if in == c {
+						closed = true
+					}
+				}
+			}
+			cond, isTrue, ok, inf := edgeOnPath(path, i)
+			if inf {
+				excused = true
+			}
+			if !ok || closed {
+				continue
+			}
+			// atomic flag: Swap(true) returned true / CompareAndSwap(false,true) returned false
+			v := cond
+			neg := false
+			if u, isU := v.(*ssa.UnOp); isU && u.Op == token.NOT {
+				v, neg = u.X, true
+			}
+			if call, isC := v.(*ssa.Call); isC {
+				id := callID(&call.Call)
+				if id.pkg == "sync/atomic" && id.name == "Swap" && isTrue != neg {
+					excused = true
+				}
+				if id.pkg == "sync/atomic" && id.name == "CompareAndSwap" && isTrue == neg {
+					excused = true
+				}
+			}
+			// the connection's own context already cancelled
+			if bo, isB := v.(*ssa.BinOp); isB && isNilConst(bo.Y) {
+				if call, isC := bo.X.(*ssa.Call); isC && call.Call.IsInvoke() && call.Call.Method.Name() == "Err" && (bo.Op == token.NEQ) == isTrue {
+					if cancelOutside.IsValid() {
+						why = "it leaves early when the connection's context is already cancelled, but the connection's cancel function is also invoked outside terminate (" + p.pos(cancelOutside) + "), so an already cancelled context does not mean the stream was closed"
+					} else {
+						excused = true
+					}
+				}
+			}
+		}
+		if closed || excused {
+			continue
+		}
+		last := path[len(path)-1]
+		pos := last.Instrs[len(last.Instrs)-1].Pos()
+		if !pos.IsValid() {
+			pos = fn.Pos()
+		}
+		if why == "" {
+			why = "a path returns without closing the stream and without an idempotence test proving an earlier terminate closed it"
+		}
+		r.Bad(rule, key, pos, "terminate: %s: the connection is abandoned with its stream open, the loop blocked in Read never returns (goroutine and socket leak, even after Close)", why)
+		return
+	}
+	r.OK(rule, key, fn.Pos(), "%d path(s): each closes the stream or leaves through an idempotence test that implies an earlier close", len(paths))
+}
